@@ -11,15 +11,26 @@
 (*            are logged once and referenced by id afterwards (state variable tab)          *)
 (*   factory  name, g            graph returned by a documented graph factory               *)
 (*   cgraph   o, t, s, mode, g   conversion_graph(o, t, s, mode)                            *)
+(*            hist               "first" | "reversed" | "shuffled": the complete argument   *)
+(*                               space is requested three times in different orders, the    *)
+(*                               caller clearing every returned graph (ConvertGraphHistory:  *)
+(*                               the answer is a function of the arguments, not of history)  *)
 (*   convert  o, t, s, m, x      configuration                                              *)
+(*            hist               "first" | "replay" (the same case executed again at the    *)
+(*                               end of the run, in another order, after all other calls)   *)
+(*            lay                layout class of the data ("canon" | "scalar" | "pixel");    *)
+(*                               the verdict does not depend on it                           *)
 (*            pv                 id of the provenance the harness evaluated numerically     *)
 (*            g                  id of the graph deduce_conversion_graph returned,          *)
 (*                               -1 = RuntimeError, -2 = any other exception                *)
 (*            copy               the returned graph is a private copy                       *)
-(*            da, ds             per container: out ("ok" | "RuntimeError" | "other"),      *)
-(*                               add = id of the set of added coordinates, val = values     *)
-(*                               equal the reference formulas along pv (1e-9), same =       *)
-(*                               supplied coordinates unchanged, has = target present       *)
+(*            da, ds             per container: out ("ok" | "RuntimeError" | "other" |      *)
+(*                               "malformed" = the call returned something that is not a    *)
+(*                               data array / dataset), add = id of the set of added        *)
+(*                               coordinates, val = values equal the reference formulas     *)
+(*                               along pv (1e-9), fin = every compared value is finite,     *)
+(*                               same = supplied coordinates unchanged (against a deep      *)
+(*                               snapshot taken before the call), has = target present      *)
 EXTENDS ConvertGraphDefs, TLC, Json, IOUtils
 
 Tr == ndJsonDeserialize(IOEnv.TRACE_FILE)
@@ -51,10 +62,13 @@ JudgeFactory(e) ==
     ELSE IF tab[e.g] # FactoryRules(e.name) THEN "factory_table_differs_from_documentation"
     ELSE "ok"
 
+(* a verdict on a repeated request names the history in its clause *)
+After(v, hist) == IF v = "ok" \/ hist = "first" THEN v ELSE v \o "_on_" \o hist \o "_request"
+
 JudgeCGraph(e) ==
-    IF ~Known(e.g) THEN "conversion_graph_raised"
-    ELSE IF tab[e.g] # Rules(GraphTagFor(e.o, e.t, e.s, e.mode)) THEN "conversion_graph_differs"
-    ELSE "ok"
+    After(IF ~Known(e.g) THEN "conversion_graph_raised"
+          ELSE IF tab[e.g] # Rules(GraphTagFor(e.o, e.t, e.s, e.mode)) THEN "conversion_graph_differs"
+          ELSE "ok", e.hist)
 
 (* one container against a walk of `rules` *)
 JudgeWalk(c, rules, ob, pv, who) ==
@@ -65,6 +79,7 @@ JudgeWalk(c, rules, ob, pv, who) ==
             THEN "computed_set" \o who
         ELSE IF pv # PairsOf(Prov(rules, Present(c), c.t)) THEN "provenance_echo"
         ELSE IF ~ob.same THEN "supplied_coordinate_changed" \o who
+        ELSE IF ~ob.fin THEN "non_finite_value" \o who
         ELSE IF ~ob.val THEN "value" \o who
         ELSE "ok"
     ELSE IF ob.out = "RuntimeError" THEN "ok"
@@ -79,11 +94,12 @@ JudgeRefusal(e) ==
     ELSE IF e.ds.out # "RuntimeError" THEN "mode_ambiguous_but_" \o e.ds.out \o "_Dataset"
     ELSE "ok"
 
-JudgeConvert(e) ==
+JudgeConvert1(e) ==
     LET c == [o |-> e.o, t |-> e.t, s |-> e.s, m |-> e.m, x |-> e.x]
         pv == IF Known(e.pv) THEN tab[e.pv] ELSE {<<"?", "?">>}
     IN
     IF ~IsConfig(c) THEN "not_a_configuration"
+    ELSE IF e.hist \notin {"first", "replay"} \/ e.lay \notin {"canon", "scalar", "pixel"} THEN "not_a_configuration"
     ELSE IF ~e.copy THEN "reported_graph_is_not_a_copy"
     ELSE IF ModeAmbiguous(c) THEN
         IF RefusalOptional(c) /\ e.g # -1 THEN
@@ -99,6 +115,8 @@ JudgeConvert(e) ==
         ELSE IF tab[e.g] # rules THEN "reported_graph_differs"
         ELSE First(JudgeWalk(c, rules, e.da, pv, "_DataArray"),
                    JudgeWalk(c, rules, e.ds, pv, "_Dataset"))
+
+JudgeConvert(e) == After(JudgeConvert1(e), e.hist)
 
 Judge(e) == IF e.ev = "convert" THEN JudgeConvert(e)
             ELSE IF e.ev = "def" THEN "ok"
